@@ -86,9 +86,16 @@ def run_case(case):
 
     d = scratch()
     db = os.path.join(d, "ga.yml")
-    gen_db.write(case["db"], db)
     build = case["build"]
-    gene = Gene(db, genome=build)
+    if case.get("gene"):
+        from aldy.common import script_path
+        from lib import gen_sol
+
+        db = script_path(f"aldy.resources.genes/{case['gene']}.yml")
+        gene = gen_sol.shipped(case["gene"], build)
+    else:
+        gen_db.write(case["db"], db)
+        gene = Gene(db, genome=build)
     sim = simreads.Sim(gene, seed=case["sim_seed"])
     dflt = natsorted(mn for a in gene.alleles.values() if a.cn_config == "1" for mn in a.minors)
     picks = [dflt[i % len(dflt)] for i in case["alleles"]]
@@ -97,8 +104,11 @@ def run_case(case):
         _, ms, maj = simreads.allele_copy(gene, nm)
         vars_.append((nm, maj, {tuple(m) for m in ms}))
     copies = collections.Counter(m for _, _, ms in vars_ for m in ms)
+    # the reference allele = the default-structure major allele without core variants (not every gene calls it *1)
+    ref_majors = [a for a, al in gene.alleles.items() if al.cn_config == "1" and not al.func_muts]
+    ref_major = ref_majors[0] if len(ref_majors) == 1 else None
     if len(vars_) == 1:  # heterozygous against the reference allele
-        planted_major = collections.Counter([vars_[0][1], "1"])
+        planted_major = collections.Counter([vars_[0][1], ref_major])
     else:
         planted_major = collections.Counter(v[1] for v in vars_)
     idx = case["idx"]
@@ -108,6 +118,8 @@ def run_case(case):
     style = case["mnp_style"]
     recs = []
     labels = [f"strand:{gene.strand:+d}", f"idx:{idx}", "phased" if case["phased"] else "unphased"]
+    if case.get("gene"):
+        labels.append("shipped:" + case["gene"])
     kinds = set()
 
     def gts(target, other_seed):
@@ -255,7 +267,7 @@ def run_case(case):
     # end to end
     disjoint = len(vars_) == 1 or vars_[0][2] == vars_[1][2] or not any(
         abs(a[0] - b[0]) < 8 for a in vars_[0][2] for b in vars_[1][2] if a != b)
-    if not viol and disjoint:
+    if not viol and disjoint and (len(vars_) == 2 or ref_major is not None):
         try:
             res = genotype(db, final, None, output_file=None, genome=build, solver="cbc", vcf_sample_idx=idx)
             sols = [s for v in res.values() for s in v]
@@ -268,10 +280,22 @@ def run_case(case):
     return Result(viol, labels, nontrivial)
 
 
+SHIPPED = ["nat2", "tpmt", "comt", "vkorc1", "nudt15", "ifnl3", "cyp2c19", "cyp2c9", "cyp2b6", "cyp3a5", "slco1b1", "ugt1a1", "cyp2d6", "g6pd"]
+
+
 def strategy(tier):
     extra = st.tuples(st.sampled_from(FOREIGN + ODDGT), st.integers(0, 500)).map(list)
-    return st.fixed_dictionaries({
-        "db": gen_db.db_specs(sv=False, pseudo=False, kinds=["snp", "snp", "mnp", "ins", "del"], gaps=True),
+
+    def mk(kind):
+        d = dict(base)
+        if kind == "shipped":
+            d["gene"] = st.sampled_from(SHIPPED[:8] if tier == "quick" else SHIPPED)
+            d["alleles"] = st.lists(st.integers(0, 2000), min_size=1, max_size=2)
+        else:
+            d["db"] = gen_db.db_specs(sv=False, pseudo=False, kinds=["snp", "snp", "mnp", "ins", "del"], gaps=True)
+        return st.fixed_dictionaries(d)
+
+    base = {
         "build": st.sampled_from(["hg19", "hg38"]),
         "alleles": st.lists(st.integers(0, 30), min_size=1, max_size=2),
         "idx": st.sampled_from([0, 0, 1, 2, 3]),
@@ -283,7 +307,8 @@ def strategy(tier):
         "extras": st.lists(extra, max_size=3),
         "anchor": st.integers(0, 300),
         "sim_seed": st.integers(0, 10 ** 6),
-    })
+    }
+    return st.sampled_from(["gen"] * (11 if tier == "quick" else 3) + ["shipped"]).flatmap(mk)
 
 
 def budget(tier):
